@@ -56,6 +56,9 @@ class _Guard:
         with self.lock:
             if not self.active:
                 return
+            # from here on the case is over time: whatever the interrupted code under test does next (z3's check() comes back
+            # 'unknown', the back end then fails on model()) is an artefact of the interrupt, not an observation
+            self.ctx.guard_interrupted = True
             try:
                 import z3
 
@@ -71,6 +74,15 @@ class _Guard:
         with self.lock:
             self.active = False
         self.timer.cancel()
+        was_interrupted, self.ctx.guard_interrupted = self.ctx.guard_interrupted, False
+        if was_interrupted and et is not CaseTimeout:
+            # the watchdog fired but the pending alarm has not raised yet (the interrupted call failed first): same outcome
+            self.ctx.count("case_timeouts")
+            self.ctx.inconc(f"case exceeded {self.seconds}s guard (interrupted)", self.what if self.what is not None else self.ctx.current_case)
+            if self.ctx.counters.get("case_timeouts", 0) >= 3:
+                self.ctx.count("shard_aborted")
+                raise ShardAbort()
+            return True
         if et is CaseTimeout:
             self.ctx.count("case_timeouts")
             self.ctx.inconc(f"case exceeded {self.seconds}s guard", self.what if self.what is not None else self.ctx.current_case)
@@ -92,6 +104,7 @@ class Ctx:
         self.nshards = nshards
         self.rng = random.Random(f"{prop}/{seed}/{shard}")
         self.evaluations = 0
+        self.guard_interrupted = False
         self.case_hashes = set()
         self.nontrivial_hashes = set()
         self.counters = {}
@@ -139,6 +152,9 @@ class Ctx:
     def violation(self, mech, what, witness):
         """mech: mechanism-level key (used by the known-findings classifier);
         what: one-line human description; witness: JSON-able replay descriptor."""
+        if self.guard_interrupted:
+            self.count("observations_discarded_after_watchdog_interrupt")
+            return
         self.violation_total += 1
         self.viol_by_mech[mech] = self.viol_by_mech.get(mech, 0) + 1
         per = sum(1 for v in self.violations if v["mech"] == mech)
